@@ -350,12 +350,6 @@ def c16_class(cls, ev):
         if kind == "NODE" and 62 in inp[:inp.index(60)] if 60 in inp else False:
             if one_error and toks[0]["t"] == inp[:inp.index(62) + 1]:
                 return "node-type-contains-gt"
-    if ev["ev"] == "Pair" and cls == "inserted-white-space-changes-tokens":
-        ka, kb = [t["k"] for t in ev["a"]["toks"]], [t["k"] for t in ev["b"]["toks"]]
-        if "FILTER_FUNCTION" in ka:
-            i = ka.index("FILTER_FUNCTION")
-            if ka[i + 1:i + 2] == ["LEFT_PARENT"] and kb == ka[:i] + ["ERROR"]:
-                return "white-space-before-filter-function-parenthesis"
     return cls
 
 
@@ -430,7 +424,7 @@ def check_c16(v, d):
     v.assumptions += [
         "which substrings become tokens of which kind is deliberately not specified; only stream well-formedness and the relational facts (case, white space, printed values) are judged",
         "printed values with embedded double quotes and pairs whose two texts both end in a lexer error are not judged (open)",
-        "white-space variants only change white space BETWEEN tokens (never inside a token such as 't1, t2' after BETWEEN); 'ws0'/'ws1' add white space where the base text has none",
+        "white-space variants only change white space BETWEEN tokens (never inside a token such as 't1, t2' after BETWEEN; a filter function and its '(' count as written together: the repository's tests require 'latest (' to be rejected)",
     ]
     return v.finish()
 
